@@ -101,17 +101,35 @@ def vstructure_rules(rep, prog):
         lay = lay or (pairs_sorted and tup == t1)
         ok = got == want and lay
         why = "condition %s, tuple %s" % (sorted(pred_fmt(x) for x in got), fmt(tup)[:120])
-    rep.check("VS.condition", ok, fwhere(f, apps[0].node if apps else None),
-              "(min(i,j), c, max(i,j)) recorded exactly when A[i,j] == 0 and A[j,i] == 0",
-              "v-structure test/tuple deviates from `unshielded, (min, c, max)`: " + why)
-    rets = S.select("return", qname=q)
     acc = [k for k, v in outer["init"].items() if v in (("list", ()), ("ext", "set", (), ()), ("set", ()))]
     lo_id = [k for k, v in S.loopinfo.items() if v is outer][0]
+
+    def triple_shaped(t):
+        if t[0] == "phi":
+            return triple_shaped(t[2]) and triple_shaped(t[3])
+        return t[0] == "tuple" and len(t[1]) == 3
+    # what is recorded must be a triple, recorded into the collection that is returned: anything else (pairs mapped to their colliders, a dict of lists,
+    # an object keeping the state) is another representation of the same search, which these rules do not read
+    recorded_triples = len(apps) == 1 and len(apps[0].args) == 1 and triple_shaped(apps[0].args[0]) and len(acc) == 1 and \
+        apps[0].recv in (("mu", lo_id, acc[0]), ("mu", li, acc[0]))
+    if ok:
+        rep.ok("VS.condition", fwhere(f, apps[0].node), "(min(i,j), c, max(i,j)) recorded exactly when A[i,j] == 0 and A[j,i] == 0")
+    elif recorded_triples:
+        rep.bad("VS.condition", fwhere(f, apps[0].node), "v-structure test/tuple deviates from `unshielded, (min, c, max)`: " + why)
+    else:
+        rep.unk("VS.condition", fwhere(f, apps[0].node if apps else None), "the v-structures are not recorded as triples appended to one local collection (%s): this representation is not read" % why[:120])
+        return
+    rets = S.select("return", qname=q)
     full = [("after", lo_id, k) for k in acc]
     rv = rets[0].value if len(rets) == 1 else ("const", None)
     # the whole accumulated collection, as a set (or the accumulated set itself)
     ok = len(acc) == 1 and ((rv[0] == "ext" and rv[1] in ("set", "frozenset") and len(rv[2]) == 1 and rv[2][0] in full) or (rv in full and outer["init"][acc[0]] != ("list", ())))
-    rep.check("VS.result", ok, fwhere(f), "returns the set of recorded triples", "result is not the set of recorded triples")
+    if ok:
+        rep.ok("VS.result", fwhere(f), "returns the set of recorded triples")
+    elif len(acc) == 1 and any(x in full for x in walk(rv)) or (len(rets) == 1 and is_const(rv)):
+        rep.bad("VS.result", fwhere(f), "result is not the set of recorded triples: %s" % fmt(rv)[:80])
+    else:
+        rep.unk("VS.result", fwhere(f), "what vstructures returns is not built from the collection the loop fills (%s): not read" % fmt(rv)[:80])
 
 
 def moral_rules(rep, prog):
